@@ -360,6 +360,12 @@ type ifInfo struct {
 	// (`for _, e := range []T{…} { if cond(e) … }`); insts[k] is the atom for element k
 	tblCtr string
 	insts  []Atom
+	// named condition (`c := a && b; if c`): the branch tests a boolean phi that is constant
+	// from every predecessor but one; coming from that one the branch is `if V`. alt is V's
+	// atom (as the branch condition), constSlot the successor the constant entries take.
+	alt       *Atom
+	altT      *Term
+	constSlot int
 }
 
 func (p *Prog) ifs(fn *ssa.Function) []ifInfo {
@@ -371,7 +377,16 @@ func (p *Prog) ifs(fn *ssa.Function) []ifInfo {
 		}
 		if iff, ok := b.Instrs[len(b.Instrs)-1].(*ssa.If); ok {
 			t := x.Of(iff.Cond, iff)
-			out = append(out, ifInfo{in: iff, atom: atomOfTerm(t), t: t})
+			ii := ifInfo{in: iff, atom: atomOfTerm(t), t: t}
+			if v, pred, neg, cs, ok := namedCondition(iff); ok {
+				vt := x.Of(v, pred.Instrs[len(pred.Instrs)-1])
+				if neg {
+					vt = mk("un", "!", vt)
+				}
+				a := atomOfTerm(vt)
+				ii.alt, ii.altT, ii.constSlot = &a, vt, cs
+			}
+			out = append(out, ii)
 		}
 	}
 	for _, sp := range p.splices(fn) {
@@ -391,6 +406,17 @@ func passEdges(ifs []ifInfo, guard []Atom) (map[Edge]bool, []ifInfo) {
 			if matchKey(g.Key, ii.atom.Key) {
 				slot := 0 // true successor: Key holds == atom.Pol
 				if ii.atom.Pol != g.Pol {
+					slot = 1
+				}
+				cut[Edge{ii.in.Block(), slot, ii.site}] = true
+				matched = append(matched, ii)
+				continue
+			}
+			// a named condition: entries that bring a constant are threaded past this branch
+			// (enter), every other entry decides it by V
+			if ii.alt != nil && matchKey(g.Key, ii.alt.Key) {
+				slot := 0
+				if ii.alt.Pol != g.Pol {
 					slot = 1
 				}
 				cut[Edge{ii.in.Block(), slot, ii.site}] = true
@@ -812,6 +838,11 @@ func (p *Prog) rejectEdges(fn *ssa.Function, ifs []ifInfo) []struct {
 			slot = 1
 		}
 		when := ii.atom
+		if ii.alt != nil {
+			// constant entries are threaded past this branch (their own branches are judged
+			// where they are): whoever takes this edge came through the deciding predecessor
+			when = *ii.alt
+		}
 		if slot == 1 {
 			when.Pol = !when.Pol
 		}
